@@ -420,14 +420,6 @@ func (p *pool) scenario(r *hx.Rng, packer, kt, enc, style, via, pay string, n in
 		sc.Rcpts[i], sc.Rcpts[j] = sc.Rcpts[j], sc.Rcpts[i]
 	}
 
-	if style == "pdoc" {
-		// key-agreement ids of the parties' documents (8 keyAgreement entries each); slot 0 is never the last entry
-		sc.Sender[1] = 0
-		for i := range sc.Rcpts {
-			sc.Rcpts[i][1] = 0
-		}
-	}
-
 	sc.Unpackers = []int{0, 1, 2, 3, 4, 5}
 
 	return sc
